@@ -124,7 +124,49 @@ def rule_M1(repo: Repo) -> RuleResult:
     res.analysed = {"reachable_merge_sites": sites, "unreachable_merge_sites": sorted(set(unreachable))}
     if sites < 2:
         raise AnalysisError(f"M1: only {sites} reachable reduce_array_pair call sites found (confirmed floor 2)")
+    _m1_kernel(nb.func("reduce_array_pair"), res)
+    _m1_combiner_callsites(repo, res)
     return res
+
+
+def _m1_kernel(f: Func, res: RuleResult):
+    """reduce_array_pair: count := counts[i] (1 only without counts); skip where y_counts[i] == 0"""
+    txt = [norm(s) for s in ast.walk(f.node) if isinstance(s, ast.stmt)]
+    ok_count = any(t == "count = counts[i]" for t in txt)
+    skip = [n for n in ast.walk(f.node) if isinstance(n, ast.If) and "y_counts[i] == 0" in norm(n.test)
+            and any(isinstance(s, ast.Continue) for s in n.body)]
+    if ok_count:
+        res.ok(f, f.node, "reduce_array_pair: count = counts[i]", "the reducer sees the accumulated count of the left side")
+    else:
+        res.bad(f, f.node, "reduce_array_pair: count", "the reducer is no longer given counts[i]")
+    if skip:
+        res.ok(f, skip[0], "reduce_array_pair: " + norm(skip[0].test) + " -> continue", "empty right partial leaves the accumulator untouched")
+    else:
+        res.bad(f, f.node, "reduce_array_pair: empty right partial",
+                "the merge kernel no longer skips a right partial whose count is zero")
+
+
+def _m1_combiner_callsites(repo: Repo, res: RuleResult):
+    """every reachable call of the thread combiner passes the workers' counts unconditionally"""
+    nb = repo.mod("groupby.numba")
+    comb = "combine_chunk_results_for_factorized_key"
+    n = 0
+    for f in nb.functions.values():
+        if f.name == comb:
+            continue
+        for c in walk_no_nested(f.node):
+            if isinstance(c, ast.Call) and (call_name(c) or "").split(".")[-1] == comb:
+                n += 1
+                cnt = next((k.value for k in c.keywords if k.arg == "counts"), c.args[2] if len(c.args) >= 3 else None)
+                construct = f"{f.qualname} -> {comb}(counts={norm(cnt) if cnt is not None else '<missing>'})"
+                if isinstance(cnt, ast.Name):
+                    res.ok(f, c, construct, "the workers' counts")
+                else:
+                    res.bad(f, c, construct,
+                            "the combiner is not given the workers' counts unconditionally: without them it falls back to "
+                            "count = 1 and the empty partial of a group absent from the first blocks is merged as a value")
+    if n < 1:
+        raise AnalysisError("M1: no call of the thread combiner found")
 
 
 def _m1_site(f: Func, call: ast.Call, res: RuleResult):
@@ -176,6 +218,25 @@ def _m1_site(f: Func, call: ast.Call, res: RuleResult):
                 f"(no '{'/'.join(sorted(bases))} += ...' after the merge): it does not mark which groups are still empty")
         return
     res.ok(f, call, construct, f"counts bound to {norm(expr)}{note}; updated afterwards by {norm(acc_after[0])}")
+    # the partial being merged is recognised as empty by ITS count (null accumulators are only recognisable for
+    # float / int64 data)
+    yc = next((k.value for k in call.keywords if k.arg == "y_counts"), call.args[4] if len(call.args) >= 5 else None)
+    construct2 = construct + " [y_counts]"
+    if yc is None or (isinstance(yc, ast.Constant) and yc.value is None):
+        res.bad(f, call, construct2,
+                "the merge does not receive the counts of the partial being merged (y_counts): an empty partial is then only "
+                "recognised by a null accumulator, which is_null detects for float and int64 data only - for int32/uint8/bool "
+                "values the initial value of a block without the group is merged as a real value")
+        return
+    yexpr = yc.body if isinstance(yc, ast.IfExp) else yc
+    upd = acc_after[0]
+    added = upd.value if isinstance(upd, ast.AugAssign) else (upd.value.right if isinstance(upd.value, ast.BinOp) else upd.value)
+    if norm(yexpr) == norm(added) or norm(yexpr) in norm(upd):
+        res.ok(f, call, construct2, f"y_counts = {norm(yexpr)}, the same counts that are accumulated afterwards")
+    else:
+        res.bad(f, call, construct2,
+                f"y_counts is bound to {norm(yexpr)} but the counts accumulated after the merge are {norm(added)}: the "
+                f"emptiness test and the accumulated count refer to different partials")
 
 
 def _is_param_not_none_flag(f: Func, name: str) -> bool:
